@@ -753,6 +753,23 @@ theorem refuse_shared_name (fc : Char → Char) (a b : Source) (i k : Nat) (x y 
     have := register_clash (foldS fc) m 0 [] [] i (a.names.length + k) x y (by omega) ha hb hform hsame
     exact this (by simpa [Vocab.build] using hd)
 
+/-- **Merge then prefix = prefix then merge.** In the model the prefix is a label of the member and no part of its
+vocabulary, so finalising a merged vocabulary cannot depend on it: for the vocabulary `m` that `loadVersions`
+produces from several libraries, the spelling `a:t` resolves in any group holding that member under `a:` exactly
+as `t` resolves in the same merge loaded without a prefix — same node, same remainder, same error, prefix
+apart.  (That the implementation, which sets the prefix BEFORE merging the second library and finalises again,
+agrees is what the merged-prefix streams of the harness check.) -/
+theorem merge_prefix_commute (fc : Char → Char) (first : Source) (rest : List Source) (m : List Name)
+    (_h : loadVersions fc first rest = .ok m) (g : Group) (a t : Str) (M : Member)
+    (hM : M.vocab = Vocab.build (foldS fc) m)
+    (hnd : (prefixes g).Nodup) (hm : (a ++ [':'], M) ∈ g) (ha : ':' ∉ a) (ha2 : '/' ∉ a)
+    (ht : namespaceOf t = []) :
+    Group.find g fc (a ++ ':' :: t) = findAlone [] M fc t ∧
+    Group.find g fc (a ++ ':' :: t) = .res (Schema.find (Vocab.build (foldS fc) m) (foldS fc) t) := by
+  have := dispatch_prefixed_text g fc a t M hnd hm ha ha2 ht
+  rw [hM] at this
+  exact ⟨by rw [this.1], this.2⟩
+
 /-! ## non-vacuity -/
 
 /-- a two-member group; prefixed and unprefixed lookups; unknown prefix -/
